@@ -5,12 +5,12 @@ import struct
 
 from harness import common, isoutil as iu
 from harness.props import c01, c07
-from harness.props.vbsutil import read_all, render_end
+from harness.props.vbsutil import read_all, read_pattern, render_end
 
 PROP = 'C10'
 RULE = ("IPM files of n records (quick n <= 6, thorough n <= 40) x every position k in 1..n x fault kind {truncated record, "
         "oversized length, undecodable MTI, unknown bitmap bit, bad field length, bad typed value, bad PDS content, bad ICC "
-        "content} x {VBS, 1014} x {latin_1, cp500}, truncation at every byte of record k (n <= 6), records with space-padded elements: records 1..k-1 must be delivered, then MciIpmDataError with "
+        "content} x {VBS, 1014} x {latin_1, cp500}, truncation at every byte of record k (n <= 6), records with space-padded elements, the reader consumed as one loop / next() then a loop / two loops / next() only: records 1..k-1 must be delivered, then MciIpmDataError with "
         "record_number == k and the raw bytes of record k (length prefix included) as context; the operator report must "
         "name record k. Non-trivial = k > 1 or a message-level fault; distinct = distinct (n, k, kind, format, codec)")
 TRUSTED = c01.TRUSTED + ["Model/Vbs.lean `ipmReadAll` models IpmReader.__next__ (error wrapping with record number and "
@@ -94,7 +94,8 @@ def impl_eval(case):
     from cardutil.cli import print_exception_details
     data, recs, raw_k = build(case)
     codec, k = case['codec'], case['k']
-    got, exc = read_all(mciipm.IpmReader(io.BytesIO(data), encoding=codec, blocked=bool(case['b'])))
+    got, exc = read_pattern(mciipm.IpmReader(io.BytesIO(data), encoding=codec, blocked=bool(case['b'])),
+                            case.get('pattern', 'for'))
     body = '|'.join(iu.dict_wire({kk: v for kk, v in r.items() if not kk.startswith('DE43_')}, sort=True) for r in got)
     why = None
     expected_prefix = [iso8583.loads(r, encoding=codec) for r in recs[:k - 1]]
@@ -135,6 +136,9 @@ def explore(run, tier):
                         cases.append(c)
                         if kind == 'oversized':
                             cases.append(dict(c, extra=2 ** 31))
+                        if k >= 2 and (n, kind) in ((6, 'badlen'), (3, 'truncated'), (6, 'oversized'), (3, 'badmti')):
+                            for pattern in ('next-for', 'two-loops', 'next-only'):
+                                cases.append(dict(c, pattern=pattern))
                         if kind == 'truncated' and n <= 6:
                             # every cut position inside record k (at least one byte of it survives, never all)
                             for cut in range(1, len(good_record(k - 1, codec))):
